@@ -482,8 +482,14 @@ def rule_res1(ctx: Ctx) -> RuleResult:
     # the caller turns an unresolved set (more than one type left) into plain str
     ou = prog.func("json_to_models/generator.py", "MetadataGenerator._optimize_union")
     rr.instances += 1
-    ok = any(isinstance(n, ast.IfExp) and norm(n.body) == "str" and "len(" in norm(n.test) and "> 1" in norm(n.test)
-             for n in walk_no_nested(ou.node))
+    def _more_than_one(t: ast.AST) -> bool:
+        # exactly `len(X) > 1` (or `>= 2`, `!= 1` is not it): any further condition lets a set of several unrelated types pass
+        return isinstance(t, ast.Compare) and len(t.ops) == 1 and isinstance(t.left, ast.Call) and norm(t.left.func) == "len" and \
+            isinstance(t.comparators[0], ast.Constant) and ((isinstance(t.ops[0], ast.Gt) and t.comparators[0].value == 1) or
+                                                            (isinstance(t.ops[0], ast.GtE) and t.comparators[0].value == 2))
+    ok = any(isinstance(n, ast.IfExp) and norm(n.body) == "str" and _more_than_one(n.test) for n in walk_no_nested(ou.node)) or any(
+        isinstance(n, ast.If) and _more_than_one(n.test) and any(isinstance(x, ast.Call) and x.args and norm(x.args[0]) == "str"
+                                                                 for b in n.body for x in ast.walk(b)) for n in walk_no_nested(ou.node))
     rr.ob(ou.relpath, ou.qualname, "str if len(str_types) > 1 else next(iter(str_types))", "more than one pseudo-type left "
           "after resolving means plain str", DISCHARGED if ok else VIOLATED, "found" if ok else "missing", ou.node.lineno)
     return rr
